@@ -119,10 +119,20 @@ func caseC15(c *Ctx) {
 			}
 			a.Cov.N["reset_with_all_resources_present"]++
 		}
+		// (statistics were looked at before the Reset, so whatever they keep between calls is filled)
+		if msg := statsConsistent(a.W); msg != "" {
+			a.fail("stats.tables", "before Reset: %s", msg)
+			break
+		}
 		a.Do(&Op{K: "Reset"})
 		if a.Failed() {
 			break
 		}
+		if msg := statsConsistent(a.W); msg != "" {
+			a.fail("reset.stats", "after Reset: %s", msg)
+			break
+		}
+		a.Cov.N["stats_checked_around_reset"]++
 		// directly after Reset
 		if used := a.W.Stats().Entities.Used; used != 0 || len(a.iterate(ecs.All())) != 0 {
 			a.fail("reset.entities", "after Reset the world still has entities (Used=%d)", used)
